@@ -412,12 +412,12 @@ def world_money():
     w.sf = {}
     functional, _ = O.iso_table()
     for code in CURRENCIES:
-        w.apply(['cur', code])
+        w.must(['cur', code])
         (minor,) = functional[code]['minor']
         w.sf[code] = F(1, 10 ** minor)
-    w.apply(['newcur', 'XNK', None, 'D:0.05'])
+    w.must(['newcur', 'XNK', None, 'D:0.05'])
     w.sf['XNK'] = F(1, 20)
-    w.apply(['dtype', 'PPM', [['Money', 1], ['Mass', -1]], None, None])
+    w.must(['dtype', 'PPM', [['Money', 1], ['Mass', -1]], None, None])
     return w
 
 
@@ -438,7 +438,9 @@ def run_mode_sequence(p):
         w = world_dv()
     else:
         w, err = build_world(USER)
-        assert err is None, err
+        if err is not None:
+            from ..world import SetupRejected
+            raise SetupRejected(*err)
     for mode in modes:
         O.set_mode(mode)
         ck = Ck(w, st, mode, name + ':mode-sequence-' + order)
@@ -496,9 +498,8 @@ def run_world(p):
         explore_type(ck, 'Money', syms, syms)
         explore_near_ties(ck, 'Money', syms)
         # price x mass -> money
-        res = w.apply(['unit', 'PPM', 'EUR/kg', ['derive', ['EUR', 'kg']]])
-        res2 = w.apply(['unit', 'PPM', 'JPY/kg', ['derive', ['JPY', 'kg']]])
-        assert res[0] == 'ok' and res2[0] == 'ok', (res, res2)
+        w.must(['unit', 'PPM', 'EUR/kg', ['derive', ['EUR', 'kg']]])
+        w.must(['unit', 'PPM', 'JPY/kg', ['derive', ['JPY', 'kg']]])
         explore_products(ck, [('*', 'EUR/kg', 'g'), ('*', 'g', 'EUR/kg'),
                               ('*', 'JPY/kg', 'lb'), ('*', 'oz', 'JPY/kg'),
                               ('*', 'EUR/kg', 'kg')], 'Money')
